@@ -94,6 +94,9 @@ def wg_cases(rng, tier):
         yield case("wg_run", [tokens], ops), ["wg", "wg-last-in-window" if any(o > 10 for o in ops) else "wg-plain"]
     # real two-thread races of the poll against the last drop: a supporting search for windows inside WaitGroupFuture::poll that the
     # deterministic hook points do not cover (it can miss; its oracle is sound)
+    # very many live tokens on one runner at the moment of shutdown (the stop notification must reach ALL of them)
+    for n in ([5, 65540, 70000] if tier == "quick" else [4, 5, 100, 65535, 65536, 65539, 65540, 70000, 131075]):
+        yield case("tok_many", [n]), ["tok-many"]
     for i in range(3 if tier == "quick" else 12):
         yield case("wg_race", [100000 + i if tier == "quick" else 600000 + i]), ["wg-race"]
 
@@ -103,7 +106,7 @@ def nontrivial(line, tags):
 
 
 def min_classes(tier):
-    return {"shutdown": 1000, "idle": 300, "wg": 150, "wg-last-in-window": 60, "wg-race": 3, "clone-shutdown": 60}
+    return {"shutdown": 1000, "idle": 300, "wg": 150, "wg-last-in-window": 60, "wg-race": 3, "clone-shutdown": 60, "tok-many": 3}
 
 
 def oracle(line, impl_line):
@@ -115,6 +118,8 @@ def oracle(line, impl_line):
         v = C13.oracle(line, impl_line)
         return ("a clone's shutdown future was ready while one of its tokens lived, pending (or not woken) after its last token had gone, or the "
                 "token history itself is wrong") if v is not True and "crashed" in str(v) else v
+    if mode == "tok_many":
+        return True if o == [[1]] else "with %s live tokens a connection was not told about the shutdown, or the shutdown future misbehaved" % a[0]
     if mode == "wg_race":
         return True if o == [[0]] else ("a wake-up was lost in a real two-thread race: the shutdown future returned Pending, the last token was "
                                          "dropped, and the waker it registered was never woken")
